@@ -17,6 +17,7 @@ func vpStr(name string) string
 func vpFloat(name string) float64
 func vpRec(name string) []byte // arbitrary record contents (abstract JSON: parse results are symbolic)
 func vpRecMk(id, tok string, prio int) []byte
+func vpNoteToken(tok string) // tells the replay which real token stands for the executor's k-th "uuid-k"
 func vpRecID(r []byte) string
 func vpRecTok(r []byte) string
 func vpRecPrio(r []byte) int
